@@ -341,6 +341,163 @@ example :
 
 end Process
 
+/-! ## Executors: every subset of the executor kinds of the format
+
+The format has a key for four executor fields: the payload of the `lsf-dm-in` pre-executor (`rstage-in`), the payload of
+the `lsf-dm-out` post-executor (`rstage-out`) and the two options of the `docker` main executor.  A component may carry
+any subset of them (stage-in without stage-out, stage-out without stage-in, both, none, with and without the docker
+executor).  In the model the writer looks at one `(path, value)` pair at a time; the harness compares the real
+`_flowir_component_to_dict` with `dumpSection` on components carrying every subset. -/
+section Executors
+
+def stageInPath : Path := ["executors".toList, "pre".toList, "lsf-dm-in".toList, "payload".toList]
+def stageOutPath : Path := ["executors".toList, "post".toList, "lsf-dm-out".toList, "payload".toList]
+def dockerImagePath : Path := ["executors".toList, "main".toList, "docker".toList, "docker-image".toList]
+def dockerArgsPath : Path := ["executors".toList, "main".toList, "docker".toList, "docker-args".toList]
+def executorPaths : List Path := [stageInPath, stageOutPath, dockerImagePath, dockerArgsPath]
+
+/-- **what is written for some pairs of a component does not depend on its other pairs** (for every dump table): an
+executor is written in the same way whichever other executors and options stand before or after it -/
+theorem dump_independent_of_siblings (dt : List DumpEntry) (pass : List Path) (a c b : List (Path × Val)) :
+    dumpSection dt pass (a ++ c ++ b) = dumpSection dt pass a ++ dumpSection dt pass c ++ dumpSection dt pass b := by
+  simp [dumpSection, List.filterMap_append]
+
+/-- a pair that is written is written in every component that holds it, whatever else the component holds -/
+theorem dump_pair_in_every_component (dt : List DumpEntry) (pass : List Path) (c : List (Path × Val)) (pv : Path × Val)
+    (kv : S × S) (h : dumpPair dt pass pv = some kv) (hm : pv ∈ c) : kv ∈ dumpSection dt pass c :=
+  List.mem_filterMap.mpr ⟨pv, hm, h⟩
+
+private theorem dumpSome_table4 (dt : List DumpEntry) (pass : List Path) (a b c d : S) (v : Val) (e : DumpEntry)
+    (h : findDump dt [a, b, c, d] = some e) : dumpSome dt pass [a, b, c, d] v = some (e.key, print e.printer v) := by
+  simp [dumpSome, h]
+
+private theorem dumpSome_pass4 (dt : List DumpEntry) (pass : List Path) (a b c d k : S) (v : Val)
+    (h : findDump dt [a, b, c, d] = none) (hp : passKey pass [a, b, c, d] = some k) :
+    dumpSome dt pass [a, b, c, d] v = some (k, pyStr v) := by
+  simp [dumpSome, h, hp]
+
+private theorem parsePair_raw4 (pt : List ParseEntry) (known : List S) (k s a b c d : S)
+    (hk : known.contains k = true) (hf : findParse pt k = some ⟨k, [([a, b, c, d], .parsed .raw)]⟩) :
+    parsePair pt known (k, s) = some [([a, b, c, d], .str s)] := by
+  have hk' : k ∈ known := by simpa using hk
+  simp [parsePair, hk', hf, parseOuts, parse, dropEmptyTop]
+
+/-- **every executor field of the format**: its text is written unchanged under its key, and that line is read back as
+exactly that field of exactly that executor (tables of the code that exists) -/
+theorem executor_field_roundtrip (p : Path) (hp : p ∈ executorPaths) (s : S) :
+    ∃ k, dumpPair dumpTable passthrough (p, .str s) = some (k, s) ∧
+      parsePair parseTable knownKeys (k, s) = some [(p, .str s)] := by
+  simp only [executorPaths, List.mem_cons, List.not_mem_nil, or_false] at hp
+  rcases hp with rfl | rfl | rfl | rfl
+  · refine ⟨"rstage-in".toList, ?_, ?_⟩
+    · have h : findDump dumpTable stageInPath = some ⟨stageInPath, "rstage-in".toList, .ident⟩ := by decide +kernel
+      exact dumpSome_table4 dumpTable passthrough _ _ _ _ (.str s) _ h
+    · exact parsePair_raw4 parseTable knownKeys _ s _ _ _ _ (by decide +kernel) (by decide +kernel)
+  · refine ⟨"rstage-out".toList, ?_, ?_⟩
+    · have h : findDump dumpTable stageOutPath = some ⟨stageOutPath, "rstage-out".toList, .ident⟩ := by decide +kernel
+      exact dumpSome_table4 dumpTable passthrough _ _ _ _ (.str s) _ h
+    · exact parsePair_raw4 parseTable knownKeys _ s _ _ _ _ (by decide +kernel) (by decide +kernel)
+  · refine ⟨"docker-image".toList, ?_, ?_⟩
+    · have h : findDump dumpTable dockerImagePath = none := by decide +kernel
+      have hp : passKey passthrough dockerImagePath = some "docker-image".toList := by decide +kernel
+      exact dumpSome_pass4 dumpTable passthrough _ _ _ _ _ (.str s) h hp
+    · exact parsePair_raw4 parseTable knownKeys _ s _ _ _ _ (by decide +kernel) (by decide +kernel)
+  · refine ⟨"docker-args".toList, ?_, ?_⟩
+    · have h : findDump dumpTable dockerArgsPath = none := by decide +kernel
+      have hp : passKey passthrough dockerArgsPath = some "docker-args".toList := by decide +kernel
+      exact dumpSome_pass4 dumpTable passthrough _ _ _ _ _ (.str s) h hp
+    · exact parsePair_raw4 parseTable knownKeys _ s _ _ _ _ (by decide +kernel) (by decide +kernel)
+
+/-- a field of the `docker` main executor holding text: written under its own name (pass-through), so it has no entry in
+the dump table and `pairOk` does not cover it -/
+def dockerFieldOk : Path × Val → Bool
+  | (p, .str _) => decide (p = dockerImagePath ∨ p = dockerArgsPath)
+  | _ => false
+
+/-- **every subset of executors survives the round trip**: a component all of whose pairs are expressible (`pairOk`) or
+fields of the docker executor — so: any subset of the executor fields (stage-in without stage-out, stage-out without
+stage-in, both, none, with and without docker image / arguments) next to any options, references and variables, in any
+order — is written to a section that the reader accepts; every executor field it holds is in the component that is read
+back, with exactly the text that was written; and every other pair is found again as in `instance_roundtrip`. -/
+theorem executor_subsets_roundtrip (c : List (Path × Val))
+    (hc : ∀ pv ∈ c, pairOk dumpTable parseTable knownKeys pv = true ∨ dockerFieldOk pv = true) :
+    ∃ out, parseSection parseTable knownKeys (dumpSection dumpTable passthrough c) = some out ∧
+      (∀ p ∈ executorPaths, ∀ s, (p, Val.str s) ∈ c → (p, Val.str s) ∈ out) ∧
+      (∀ p v, (p, v) ∈ c → v ≠ .none → pairOk dumpTable parseTable knownKeys (p, v) = true →
+        ∃ w pa, norm pa w = norm pa v ∧ ((p, w) ∈ out ∨ (p.length = 1 ∧ w = .words []))) := by
+  have hall : ∀ kv ∈ dumpSection dumpTable passthrough c, ∃ o, parsePair parseTable knownKeys kv = some o := by
+    intro kv hkv
+    obtain ⟨pv, hpv, hdp⟩ := List.mem_filterMap.mp hkv
+    rcases hc pv hpv with hok | hdock
+    · obtain ⟨out1, hout1, _⟩ := instance_roundtrip [pv] (by
+        intro q hq; rw [List.mem_singleton.mp hq]; exact hok)
+      have hsec : dumpSection dumpTable passthrough [pv] = [kv] := by simp [dumpSection, hdp]
+      rw [hsec] at hout1
+      cases ho : parsePair parseTable knownKeys kv with
+      | none => simp [parseSection, ho] at hout1
+      | some o => exact ⟨o, rfl⟩
+    · obtain ⟨p, v⟩ := pv
+      cases v with
+      | str s =>
+        have hp : p ∈ executorPaths := by
+          simp only [dockerFieldOk, decide_eq_true_eq] at hdock
+          rcases hdock with h | h <;> simp [executorPaths, h]
+        obtain ⟨k, hd, hpar⟩ := executor_field_roundtrip p hp s
+        rw [hd] at hdp
+        injection hdp with hdp
+        subst hdp
+        exact ⟨_, hpar⟩
+      | _ => simp [dockerFieldOk] at hdock
+  obtain ⟨out, hout, hsub⟩ := section_lines parseTable knownKeys _ hall
+  refine ⟨out, hout, ?_, ?_⟩
+  · intro p hp s hmem
+    obtain ⟨k, hd, hpar⟩ := executor_field_roundtrip p hp s
+    have hkv := dump_pair_in_every_component dumpTable passthrough c _ _ hd hmem
+    exact hsub (k, s) hkv _ hpar _ (List.mem_singleton.mpr rfl)
+  · intro p v hmem hne hok
+    obtain ⟨out1, hout1, h1⟩ := instance_roundtrip [(p, v)] (by
+      intro q hq; rw [List.mem_singleton.mp hq]; exact hok)
+    obtain ⟨w, pa, hn, hm⟩ := h1 p v (List.mem_singleton.mpr rfl) hne
+    refine ⟨w, pa, hn, ?_⟩
+    rcases hm with hm | hm
+    · left
+      cases hd : dumpPair dumpTable passthrough (p, v) with
+      | none =>
+        have hsec : dumpSection dumpTable passthrough [(p, v)] = [] := by simp [dumpSection, hd]
+        rw [hsec] at hout1
+        simp only [parseSection, Option.some.injEq] at hout1
+        subst hout1
+        cases hm
+      | some kv =>
+        have hsec : dumpSection dumpTable passthrough [(p, v)] = [kv] := by simp [dumpSection, hd]
+        rw [hsec] at hout1
+        cases ho : parsePair parseTable knownKeys kv with
+        | none => simp [parseSection, ho] at hout1
+        | some o =>
+          simp only [parseSection, ho, Option.some.injEq] at hout1
+          subst hout1
+          have hkv := dump_pair_in_every_component dumpTable passthrough c _ _ hd hmem
+          exact hsub kv hkv o ho _ (by simpa using hm)
+    · exact Or.inr hm
+
+/-- all sublists -/
+def subsets {α : Type} : List α → List (List α)
+  | [] => [[]]
+  | x :: r => subsets r ++ (subsets r).map (x :: ·)
+
+/-- the hypothesis of `executor_subsets_roundtrip` holds for every one of the 16 subsets of the four executor fields next
+to an option and a variable (stage-in WITHOUT stage-out among them), and the section that is read back is exactly what
+was written -/
+example :
+    (subsets ([stageInPath, stageOutPath, dockerImagePath, dockerArgsPath].map fun p => (p, Val.str "all".toList))).all
+      (fun ex =>
+        let c := ([variablesSeg, "MyVar".toList], Val.str "x y".toList) :: ex
+        c.all (fun pv => pairOk dumpTable parseTable knownKeys pv || dockerFieldOk pv) &&
+        parseSection parseTable knownKeys (dumpSection dumpTable passthrough c) == some c) = true ∧
+    (subsets [1, 2, 3, 4]).length = 16 := by decide +kernel
+
+end Executors
+
 /-! ## The configuration directory over several writes
 
 Model: `St4sd/Model/IniDir.lean`. -/
